@@ -190,6 +190,11 @@ impl<A, B> ObjectWrite for (A, B) {
     #[verifier::external_body]
     fn to_primitive<U: Updater>(&self, update: &mut U) -> Result<Primitive> { unimplemented!() }
 }
+impl Object for PdfStream {
+    open spec fn reads(p: Primitive, st: Store) -> Result<PdfStream> { abs_reads::<PdfStream>(p, st) }
+    #[verifier::external_body]
+    fn from_primitive<R: Resolve>(p: Primitive, resolve: &R) -> Result<Self> { unimplemented!() }
+}
 // stand-in for the crate's `HashMap<K, V>` (opaque value, abstract codec)
 #[verifier::external_body]
 #[verifier::accept_recursive_types(K)]
